@@ -10,6 +10,7 @@ import json
 import os
 import shutil
 
+from engine import TreeBroken
 from engine import (Check, tlc_ok, validate_traces, pmap, MachineryError)
 import regen
 
@@ -59,7 +60,7 @@ def replay_a(hist):
                 p = regen.Proj(files)
                 rc, out = p.configure()
                 if rc != 0:
-                    raise MachineryError('configure: ' + out[-300:])
+                    raise TreeBroken('configure: ' + out[-300:])
                 continue
             if op == 'result':
                 preds.append(h)
@@ -219,7 +220,7 @@ def replay_b(case):
     try:
         rc, out = p.configure()
         if rc != 0:
-            raise MachineryError('configure %s: %s' % (v, out[-300:]))
+            raise TreeBroken('configure %s: %s' % (v, out[-300:]))
         rc, out = p.tool()
         for n, op in enumerate(ops):
             p.tick()
